@@ -235,4 +235,21 @@ def finish(prop, r, level="model_checking", assumptions=None):
 
 
 def main(prop):
+    if prop == "C16":
+        # removed rules inside running engines: generated rule sets in which rules were removed before instantiation; the monitor
+        # requires that a removed rule is never evaluated, reported, fired or returned (flags C16-removed-rule-evaluated, C01-inactive-rule-fired,
+        # C11-removed-rule-returned)
+        import engine_family
+        eng = engine_family.evaluate("C16", [("control", 250, ["-mode", "mixed", "-flagp", "0.3", "-variants", "fresh,reloaded,second"]),
+                                             ("fetch", 250, ["-mode", "mixed", "-flagp", "0.3"])], ["C10", "C11", "RET-nil"],
+                                     "runs of rule sets holding removed rules")
+        r = check(prop)
+        r["violations"] += eng["violations"]
+        r["unreproduced"] += eng["unreproduced"]
+        ec = eng["cov"]
+        r["cov"]["engine_traces"] = {k: ec[k] for k in ("traces_validated_against_impl", "trace_events", "batches", "model")}
+        r["cov"]["traces_validated_against_impl"] += ec["traces_validated_against_impl"]
+        r["cov"]["states"] += ec["states"]
+        r["cov"]["transitions"] += ec["transitions"]
+        return finish(prop, r)
     return finish(prop, check(prop))
